@@ -340,6 +340,30 @@ fn explore(ctx: &mut Ctx) {
         }
     }
     ctx.exhaustive_part("near-miss families: 6 needle shapes x every prefix length 1..=24 x every partial-match length k x 3 paddings, forward and mirrored");
+    // periodic needles with long periods: unit = x y^k; the real occurrence overlaps a long partial match and starts
+    // exactly one period into it (skip tables / masks that cover only the first 8, 16, 32, 64, 128 pattern bytes slip
+    // here), for every k up to 140 and a few larger ones, forward and mirrored
+    {
+        let ks: Vec<usize> = (0..=140usize).chain([191, 192, 200, 255, 256, 257, 300]).collect();
+        for &k in &ks {
+            let mut unit = vec![b'a'];
+            unit.extend(std::iter::repeat(b'b').take(k));
+            let shapes: Vec<(Vec<u8>, Vec<u8>)> = vec![
+                // needle = U U c, haystack = U U U c
+                ([unit.clone(), unit.clone(), b"c".to_vec()].concat(), [unit.clone(), unit.clone(), unit.clone(), b"c".to_vec()].concat()),
+                // needle = U a c, haystack = U U a c
+                ([unit.clone(), b"ac".to_vec()].concat(), [unit.clone(), unit.clone(), b"ac".to_vec()].concat()),
+                // needle = U U, haystack = U x U U (a near miss first)
+                ([unit.clone(), unit.clone()].concat(), [unit.clone(), b"x".to_vec(), unit.clone(), unit.clone(), unit.clone()].concat()),
+            ];
+            for (needle, hay) in shapes {
+                eval(ctx, &hay, &needle);
+                let (rn, rh): (Vec<u8>, Vec<u8>) = (needle.iter().rev().copied().collect(), hay.iter().rev().copied().collect());
+                eval(ctx, &rh, &rn);
+            }
+        }
+        ctx.exhaustive_part("periodic needles: unit = a b^k for k in 0..=140 and 7 larger values; needle / haystack shapes (UUc in UUUc, Uac in UUac, UU in UxUUU), forward and mirrored");
+    }
     // haystacks longer than 2^16: the only occurrence starts at an offset around 2^8, 2^15, 2^16 or at the very end
     {
         let total = 70_000usize;
